@@ -292,8 +292,9 @@ def run(ctx):
     base = p.cls(PR + "_base.BasePruner")
     known = set(PROTECTIVE) | set(INHERITING) | set(NEVER) | set(DELEGATING)
     allp = [c for c in p.subclasses(base)]
-    unlisted = [c.qualname for c in allp if c.qualname not in known and (ctx.tier == "thorough" or c.module.name.startswith("optuna.pruners"))
+    unlisted = [c.qualname for c in allp if c.qualname not in known and c.module.name.startswith("optuna.pruners")
                 and not c.qualname.endswith("_BracketStudy")]
+    ctx.note("pruners_outside_optuna.pruners_not_analysed", sorted(c.qualname for c in allp if not c.module.name.startswith("optuna.pruners")))
     ctx.note("pruner_classes", sorted(c.qualname for c in allp))
     ctx.check(not unlisted, "R16.1", "optuna/pruners", "all-pruners-in-table",
               message=f"pruner classes without a protective-parameter table entry: {unlisted}", how="every BasePruner subclass classified")
